@@ -82,7 +82,7 @@ def honest(rng, gname=None, npeers=None):
     tracker = []
     if outgoing:
         for j in outgoing:
-            steps.append({'op': 'listen', 'peer': j})
+            peers[j]['listen'] = True
         tracker = [{'k': 'peers', 'peers': outgoing}]
     else:
         tracker = [{'k': 'peers', 'peers': []}]
@@ -105,9 +105,11 @@ def honest(rng, gname=None, npeers=None):
                 steps.append(send(j, f))
         if rng.random() < 0.3:
             steps.append({'op': 'advance', 'ms': rng.choice([10, 500, 3000])})
+        # a peer that sent no bitfield announces everything it holds with Have messages before it unchokes us
+        # (the client drops a connection that has nothing more to offer, so later announcements would be lost)
+        if late:
+            steps.append(send(j, *late))
         steps.append(send(j, fr('Unchoke')))
-        for f in late:
-            steps.append(send(j, f))
         if j in leavers and rng.random() < 0.5:
             steps.append({'op': 'advance', 'ms': rng.choice([1, 200])})
             steps.append({'op': 'close', 'peer': j})
@@ -312,7 +314,8 @@ def handshakes(rng):
     gname = rng.choice(['g4', 'g2'])
     pl, files, n, plens = geo(gname)
     peers = [peer(0, set(range(n)), serve='good'), peer(1, set(), serve='none'), peer(2, set(), serve='none')]
-    steps = [{'op': 'listen', 'peer': 2}]
+    peers[2]['listen'] = True
+    steps = []
     seeded = rng.random() < 0.7
     if seeded:
         steps += [{'op': 'connect', 'peer': 0}, send(0, hs(), bf(range(n))), send(0, fr('Unchoke')), {'op': 'advance', 'ms': 300}]
@@ -321,9 +324,7 @@ def handshakes(rng):
     for j in (1, 2):
         if j == 1:
             steps.append({'op': 'connect', 'peer': 1})
-        else:
-            steps.append({'op': 'tracker', 'outcome': {'k': 'peers', 'peers': [2]}})
-            steps.append({'op': 'advance', 'ms': 1500})
+        # (peer 2 is listed by the tracker: the client connects to it right at the start)
         kind = rng.choice(['good', 'badhash', 'badid', 'badpstr', 'never', 'late', 'twice', 'short'])
         pre = []
         for _ in range(rng.randint(0, 2) if kind in ('late', 'never', 'badhash') else 0):
@@ -348,7 +349,7 @@ def handshakes(rng):
         steps.append(send(j, fr('Interested')))
         steps.append(send(j, fr('Request', 0, 0, min(100, plens[0]))))
     steps.append({'op': 'advance', 'ms': 200})
-    sc = base(gname, peers, steps, [{'k': 'hang'}] if False else [], pat=rng.randrange(251))
+    sc = base(gname, peers, steps, [{'k': 'peers', 'peers': [2]}], pat=rng.randrange(251))
     sc['family'] = 'handshakes'
     return sc
 
@@ -379,4 +380,53 @@ def malformed(rng):
     sc = base(gname, peers, steps, [], pat=rng.randrange(251))
     sc['family'] = 'malformed'
     sc['fatal'] = fatal
+    return sc
+
+
+def rotation_race(rng):
+    """C14: a (repeated) bitfield whose command reaches the manager in the same poll as the rotation
+    timer: the manager may handle either first (found by TLC on Swarm.tla as a ViewAgreement race)."""
+    n = rng.choice([1, 2, 3])
+    peers = [peer(j, {0}, serve='none') for j in range(n)]
+    steps = []
+    for j in range(n):
+        steps += [{'op': 'connect', 'peer': j}, send(j, hs()), send(j, bf({0}))]
+        if rng.random() < 0.4:
+            steps.append(send(j, fr('Interested')))
+    tick = rng.choice([30000, 40000])
+    steps.append({'op': 'advance', 'ms': tick - 5000, 'slice': 1000})
+    steps.append({'op': 'advance_to', 'ms': tick - rng.choice([1, 2, 3]), 'scan': False})
+    j = rng.randrange(n)
+    steps.append({'op': 'race', 'peer': j, 'frames': [rng.choice([bf({0}), bf({0, 1}), fr('NotInterested'), fr('Interested')])], 'ms': 4, 'scan': False})
+    steps.append({'op': 'advance', 'ms': 11000, 'slice': 1000})
+    sc = base('g4', peers, steps, [{'k': 'peers', 'peers': []}])
+    sc['family'] = 'rotation_race'
+    return sc
+
+
+def tracker(rng, nfail=None):
+    """C19: a run of failed/malformed announces followed by a good one that lists a peer; meanwhile
+    an already connected peer keeps talking to the client."""
+    gname = 'g4'
+    pl, files, n, plens = geo(gname)
+    nfail = rng.choice([0, 1, 2, 5, 63, 64, 65, 66, 120]) if nfail is None else nfail
+    kinds = [{'k': 'refused'}, {'k': 'status', 'code': 500}, {'k': 'status', 'code': 404}, {'k': 'body', 'hex': b'garbage'.hex()},
+             {'k': 'body', 'hex': b'd14:failure reason4:nopee'.hex()}, {'k': 'body', 'hex': b'd8:intervali5ee'.hex()}, {'k': 'body', 'hex': ''}]
+    outcomes = [rng.choice(kinds) for _ in range(nfail)] + [{'k': 'peers', 'peers': [1]}]
+    peers = [peer(0, {0, 1}, serve='none'), peer(1, set(range(n)), serve='good', listen=True)]
+    steps = [{'op': 'connect', 'peer': 0}, send(0, hs(), bf({0, 1}))]
+    t = 0
+    horizon = nfail * 1000 + 3000
+    while t < horizon:
+        dt = rng.choice([300, 700, 1000, 1500]) if nfail < 80 else rng.choice([1500, 3000])
+        steps.append({'op': 'advance', 'ms': dt, 'slice': 500, 'scan': False})
+        t += dt
+        steps.append(send(0, rng.choice([fr('Interested'), fr('NotInterested'), fr('Have', rng.randrange(n)), fr('Choke')]), scan=False))
+    # the listed peer answers the client's handshake and serves
+    steps.append(send(1, hs(), bf(range(n))))
+    steps.append(send(1, fr('Unchoke')))
+    steps.append({'op': 'advance', 'ms': 2000})
+    sc = base(gname, peers, steps, outcomes, pat=rng.randrange(251))
+    sc['family'] = 'tracker'
+    sc['nfail'] = nfail
     return sc
